@@ -3,6 +3,7 @@
   constructor call means, and that scoring cannot fail on a parsed map.
 -/
 import Cvss.Props.C01
+import Cvss.Props.C02
 import Cvss.Props.C03
 import Cvss.Props.C04
 namespace Cvss.Lemmas.Construct
@@ -69,5 +70,66 @@ theorem v3_construct_error (s : Str) (e : Err) (h : V3.construct s = .error e) :
     obtain ⟨i, m⟩ := r
     obtain ⟨o', ho', -⟩ := C01.v3_build_eq_spec s i m (validMap3_of_parse hp)
     simp [hp, ho'] at h
+
+theorem validMap4_of_parse {s : Str} {m : MMap} (h : V4.parse s = .ok m) : C02.ValidMap m := by
+  obtain ⟨-, -, hl, hn, hm⟩ := C04.v4_parse_ok_fields s m h
+  refine ⟨fun k v hk => ?_, fun k hk => ?_⟩
+  · exact (hl (k, v) (mem_of_lookup_eq_some m k v hk)).2.1
+  · exact (lookup_isSome_iff_mem_keys m k).2 (hm k hk)
+
+/-- `CVSS4(s)` succeeds exactly when parsing does, and then is the object `build` makes of the parse -/
+theorem v4_construct_ok_iff (s : Str) (o : V4.Obj) :
+    V4.construct s = .ok o ↔ ∃ m, V4.parse s = .ok m ∧ V4.build s m = some o := by
+  unfold V4.construct
+  cases hp : V4.parse s with
+  | error e => simp
+  | ok m =>
+    obtain ⟨o', ho', -⟩ := C02.v4_build_eq_spec s m (validMap4_of_parse hp)
+    simp only [ho']
+    constructor
+    · intro h; cases h; exact ⟨m, rfl, ho'⟩
+    · rintro ⟨m', h1, h2⟩; cases h1; rw [ho'] at h2; cases h2; rfl
+
+theorem v4_construct_error (s : Str) (e : Err) (h : V4.construct s = .error e) :
+    V4.parse s = .error e ∧ (e = .malformed ∨ e = .mandatory) := by
+  unfold V4.construct at h
+  cases hp : V4.parse s with
+  | error e' =>
+    simp [hp] at h; subst h
+    exact ⟨rfl, C04.v4_parse_error s e' hp⟩
+  | ok m =>
+    obtain ⟨o', ho', -⟩ := C02.v4_build_eq_spec s m (validMap4_of_parse hp)
+    simp [hp, ho'] at h
+
+/-- what a constructed v4 object holds: the input, the parsed map, the specification's score of the
+    assignment read off that map, and its rating -/
+theorem v4_construct_spec {s : Str} {o : V4.Obj} (h : V4.construct s = .ok o) :
+    o.vector = s ∧ V4.parse s = .ok o.orig ∧ Spec.V4.score (assignment V4.X o.orig) = some o.base ∧
+      o.severity = V4.sevOf o.base := by
+  obtain ⟨m, hp, hb⟩ := (v4_construct_ok_iff s o).1 h
+  obtain ⟨o', ho', h1, h2, h3, h4⟩ := C02.v4_build_eq_spec s m (validMap4_of_parse hp)
+  rw [ho'] at hb; cases hb
+  exact ⟨h1, by rw [h2]; exact hp, by rw [h2]; exact h3, h4⟩
+
+/-- NO FOREIGN EXCEPTION: whatever the string, each constructor either succeeds or fails with its
+    version's malformed-vector or mandatory-metric error -/
+theorem construct_never_foreign (v : Ver) (s : Str) : construct v s ≠ .error .foreign := by
+  intro h
+  cases v with
+  | v2 =>
+    simp only [construct] at h
+    cases hc : V2.construct s with
+    | error e => rw [hc] at h; simp [Except.map] at h; subst h; have := (v2_construct_error s _ hc).2; simp at this
+    | ok o => rw [hc] at h; simp [Except.map] at h
+  | v3 =>
+    simp only [construct] at h
+    cases hc : V3.construct s with
+    | error e => rw [hc] at h; simp [Except.map] at h; subst h; have := (v3_construct_error s _ hc).2; simp at this
+    | ok o => rw [hc] at h; simp [Except.map] at h
+  | v4 =>
+    simp only [construct] at h
+    cases hc : V4.construct s with
+    | error e => rw [hc] at h; simp [Except.map] at h; subst h; have := (v4_construct_error s _ hc).2; simp at this
+    | ok o => rw [hc] at h; simp [Except.map] at h
 
 end Cvss.Lemmas.Construct
